@@ -239,7 +239,62 @@ class UnitGen:
             else:
                 self.gen_fn(g, e[1])
         g.framework_sha = fw.hexdigest()
+        self.follow_field_renames(g)
         return g
+
+    @staticmethod
+    def struct_fields(src_text):
+        """[(name, type text)] of a braced struct definition, in order; None if not a plain struct"""
+        m = mask(src_text)
+        if not re.search(r'\bstruct\b', m.split('{')[0]) or '{' not in m:
+            return None
+        a = m.index('{')
+        b = match_close(m, a)
+        body = src_text[a + 1:b]
+        mb = m[a + 1:b]
+        out, depth, last = [], 0, 0
+        parts = []
+        for i, ch in enumerate(mb):
+            if ch in '([{<':
+                depth += 1
+            elif ch in ')]}>':
+                depth -= 1
+            elif ch == ',' and depth == 0:
+                parts.append((last, i))
+                last = i + 1
+        parts.append((last, len(mb)))
+        for x, y in parts:
+            seg = ' '.join(l for l in (ln.strip() for ln in body[x:y].split('\n')) if l and not l.startswith(('//', '#[')))
+            mm = re.match(r'^(?:pub(?:\([^)]*\))?\s+)?([A-Za-z_]\w*)\s*:\s*(.+)$', seg)
+            if mm:
+                out.append((mm.group(1), ' '.join(mm.group(2).split())))
+        return out
+
+    def follow_field_renames(self, g):
+        """A struct whose fields were only RENAMED (same number, same types, same order) since the committed baseline:
+        the contract text (framework + spliced clauses, never the copied code) follows the new names -- `.old` and `old:`."""
+        base = self.names_baseline().get('__fields__', {})
+        renames = {}
+        for it in g.items:
+            cur = self.struct_fields(it['src_text'])
+            old = base.get(it['id'])
+            it['fields'] = cur
+            if not cur or not old or len(cur) != len(old):
+                continue
+            if [t for _, t in cur] != [t for _, t in old]:
+                continue
+            for (o, _), (n, _) in zip(old, cur):
+                if o != n:
+                    renames[o] = n
+        if not renames or len(set(renames.values())) != len(renames):
+            return
+        rx = re.compile(r'(?:(?<=\.)|(?<![\w.]))(%s)\b(?=\s*:(?!:))|(?<=\.)(%s)\b' % ('|'.join(map(re.escape, renames)), '|'.join(map(re.escape, renames))))
+        for i, (ln, mp) in enumerate(zip(g.lines, g.map)):
+            if mp.get('kind') in ('framework', 'clause'):
+                new = rx.sub(lambda m: renames[m.group(1) or m.group(2)], ln)
+                if new != ln:
+                    g.lines[i] = new
+        g.rewrites.append(dict(fn='(contract text)', id='FIELDS', frm=', '.join(sorted(renames)), to=', '.join(renames[k] for k in sorted(renames))))
 
     def gen_item(self, g, d):
         rf = self.rf(d['file'])
@@ -477,7 +532,18 @@ class UnitGen:
             fd.mode = 'assumed'
             g.demoted = getattr(g, 'demoted', []) + [fd.id]
         rf = self.rf(fd.file)
-        it = rf.find('fn', fd.path)
+        try:
+            it = rf.find('fn', fd.path)
+        except ExtractError as e:
+            if 'not found' not in str(e):
+                raise
+            # the function is gone (inlined into its caller, renamed): nothing to extract.  Its callers are verified on
+            # their own text; the properties its clauses carried are told so (vf/main.py)
+            tags = set(fd.tags)
+            for sec in fd.sections:
+                tags |= set(sec.tags)
+            g.lost_functions = getattr(g, 'lost_functions', []) + [dict(id=fd.id, path=fd.path, mode=fd.mode, tags=sorted(tags))]
+            return
         fp = FnParts(rf, it)
         src = fp.text
         fid = fd.id
